@@ -44,6 +44,7 @@ CONC = {
     "C02": dict(families=["deploy"], invs=["C02"], dinvs=["D_C02"]),
     "C03": dict(families=["deploy", "pause", "rollout"], invs=["C03_a", "C03_b", "C03_c"], dinvs=["D_C03_a", "D_C03_b", "D_C03_p"]),
     "C05": dict(families=["own"], invs=["C05_a"], dinvs=[]),
+    "C06": dict(families=["own"], invs=["C06_b"], dinvs=[]),
     "C07": dict(families=["pause"], invs=["C07_a", "C07_b", "C07_c", "C07_d", "C07_e", "C07_f"], dinvs=["D_C07_a", "D_C07_b", "D_C07_f"]),
     "C08": dict(families=["pause"], invs=["C08", "C08_fwd"], dinvs=["D_C08", "D_C07_a"]),
     "C17": dict(families=["deploy", "pause", "rollout"], invs=["C17_a", "C17_b", "C17_c"], dinvs=["D_C17_c"]),
@@ -195,15 +196,13 @@ def run_conc(prop, tier, seed, replay=None):
     for kid, (k, cnt) in listed.items():
         print("KNOWN-FINDING: %s (%d instance(s) this run)" % (k["text"].split(" ", 1)[1], cnt))
     rc = 0
-    if not replay:
-        shutil.rmtree(os.path.join(vlib.VERIF, "out", prop), ignore_errors=True)
     for i, v in enumerate(unlisted[:20]):
         out = os.path.dirname(v["trace"])
         pf = os.path.join(out, "plans", "%d.json" % v["scn"])
         plan = json.load(open(pf)) if os.path.exists(pf) else None
         observed = [json.loads(l) for l in open(v["trace"]) if '"scn":%d,' % v["scn"] in l][:600]
-        path = vlib.save_replay(prop, i, {"property": prop, "violation": {k: v[k] for k in v if k != "trace"}, "plan": plan,
-                                          "observed_trace": observed})
+        path = vlib.save_replay(prop, 100 + i, {"property": prop, "violation": {k: v[k] for k in v if k != "trace"}, "plan": plan,
+                                                "observed_trace": observed})
         print("VIOLATION property=%s replay=%s" % (prop, path))
         print("  %s subject=%s scenario=%s: %s" % (v["inv"], v["subj"], v["scn"], v["detail"]))
         rc = 1
@@ -265,11 +264,14 @@ def run_conc(prop, tier, seed, replay=None):
 # ---- sequential families: Routing.tla / MC_Routing.tla / RoutingTrace.tla ------------------
 
 SEQ = {
-    "C04": dict(invs=["C04"], cov=["C04", "C04_404"], dinvs=["Inv_RouteWellDefined", "Inv_RouteSound"]),
-    "C05": dict(invs=["C05_b", "C05_a"], cov=["C05_b"], dinvs=["Inv_Ownership"]),
-    "C16": dict(invs=["C16", "C16_cert", "C16_acme"], cov=["C16", "C16_cert"], dinvs=["Inv_Cert", "Inv_Decision"]),
+    "C04": dict(invs=["C04", "C11_restore"], cov=["C04", "C04_404"], dinvs=["Inv_RouteWellDefined", "Inv_RouteSound"]),
+    "C05": dict(invs=["C05_b", "C05_a"], cov=["C05_b"], dinvs=["Inv_Ownership", "Act_RejectedChangesNothing"]),
+    "C06": dict(invs=["C06_a", "C06_res", "C05_b", "C16_acme", "C10_notset"], cov=["C06_a", "C06_res"], dinvs=["Act_FailChangesNothing"]),
+    "C10": dict(invs=["C10", "C10_notset"], cov=["C10", "C10_notset"], dinvs=["Inv_SplitNeedsTargets"]),
+    "C11": dict(invs=["C11_cfg", "C11_restore", "C18_panic"], cov=["C11_cfg"], dinvs=["Act_FailChangesNothing"]),
+    "C16": dict(invs=["C16", "C16_cert", "C16_acme", "C11_restore"], cov=["C16", "C16_cert"], dinvs=["Inv_Cert", "Inv_Decision"]),
 }
-SEQ_SIMS = {"quick": (150, 8), "thorough": (2000, 10)}   # (behaviours, depth)
+SEQ_SIMS = {"quick": (70, 8), "thorough": (2000, 10)}   # (behaviours, depth)
 
 
 def run_seq(prop, tier, seed, replay=None):
@@ -284,6 +286,9 @@ def run_seq(prop, tier, seed, replay=None):
     if replay:
         plans = [json.load(open(replay))["plan"]]
     else:
+        plans += routing.regression_plans()
+        pw = routing.pairwise_restart_plans()
+        plans += pw if tier == "thorough" else rng.sample(pw, 40)
         wd = vlib.spec_copy("routing")
         cfg = "MC_Routing_%s.cfg" % tier
         pm = vlib.start_tlc(wd, "MC_Routing.tla", cfg, workers=vlib.NCPU // 2, timeout=MC_TIMEOUT[tier])
@@ -291,6 +296,27 @@ def run_seq(prop, tier, seed, replay=None):
         n, depth = SEQ_SIMS[tier]
         ps = vlib.start_tlc(wd2, "MC_Routing.tla", "MC_Routing_thorough.cfg", workers=1, timeout=300,
                             extra=["-simulate", "file=%s,num=%d" % (os.path.join(wd2, "sim"), n), "-depth", str(depth), "-seed", str(seed)])
+        wd3 = vlib.spec_copy("ops-sim")
+        po = vlib.start_tlc(wd3, "MC_Ops.tla", "MC_Ops.cfg", workers=1, timeout=300,
+                            extra=["-simulate", "file=%s,num=%d" % (os.path.join(wd3, "sim"), n), "-depth", str(depth + 4), "-seed", str(seed)])
+        wd4 = vlib.spec_copy("ops-mc")
+        pmo = vlib.start_tlc(wd4, "MC_Ops.tla", "MC_Ops_%s.cfg" % tier, workers=max(2, vlib.NCPU // 4), timeout=MC_TIMEOUT[tier])
+        rc, out = vlib.finish_tlc(po)
+        ofiles = sorted(glob.glob(os.path.join(wd3, "sim_*")))
+        if not ofiles:
+            raise Inconclusive("TLC simulate (MC_Ops) produced no behaviours:\n" + out[-1500:])
+        for f in ofiles:
+            steps = routing.ops_steps_from_text(open(f).read(), rng)
+            if steps:
+                plans.append(routing.plan(steps, note="ops simulate " + os.path.basename(f)))
+        rc, out = vlib.finish_tlc(pmo)
+        verdict = vlib.tlc_verdict(rc, out)
+        st, gen = vlib.tlc_stats(out)
+        mc.append(dict(cfg="MC_Ops_%s.cfg" % tier, verdict=verdict, states=st, transitions=gen))
+        if verdict not in ("ok",) and not (verdict == "timeout" and tier == "thorough"):
+            raise Inconclusive("TLC on MC_Ops: %s\n%s" % (verdict, out[-2000:]))
+        shutil.rmtree(wd3, ignore_errors=True)
+        shutil.rmtree(wd4, ignore_errors=True)
         rc, out = vlib.finish_tlc(ps)
         files = sorted(glob.glob(os.path.join(wd2, "sim_*")))
         if not files:
@@ -351,11 +377,12 @@ def run_seq(prop, tier, seed, replay=None):
         s = json.load(open(os.path.join(out, "summary.json")))
         n_scn += s["scenarios"]
         events.update(s["events"])
-    res = vlib.validate_traces(traces, module="RoutingTrace.tla", cfg="RoutingTrace.cfg")
+    res = vlib.validate_traces(traces, module="OpsTrace.tla", cfg="OpsTrace.cfg")
     harness = [v for v in res["violations"] if v["inv"] == "HARNESS"]
     if harness:
         raise Inconclusive("harness-level problem in trace: %r" % harness[:3])
-    mine = [v for v in res["violations"] if v["inv"] in spec["invs"] or (v["inv"] == "C11_restore" and prop in ("C04", "C16"))]
+    # C11 owns every mismatch observed after a restart: the restored proxy must behave as the original would have
+    mine = [v for v in res["violations"] if v["inv"] in spec["invs"] or (prop == "C11" and v.get("post") and v["inv"] != "HARNESS")]
     others = collections.Counter(v["inv"] for v in res["violations"] if v not in mine)
     listed, unlisted = collections.OrderedDict(), []
     for v in mine:
@@ -367,8 +394,6 @@ def run_seq(prop, tier, seed, replay=None):
     for kid, (k, cnt) in listed.items():
         print("KNOWN-FINDING: %s (%d instance(s) this run)" % (k["text"].split(" ", 1)[1], cnt))
     rc = 0
-    if not replay:
-        shutil.rmtree(os.path.join(vlib.VERIF, "out", prop), ignore_errors=True)
     seen = set()
     for v in unlisted:
         key = (v["trace"], v["scn"])
@@ -380,7 +405,10 @@ def run_seq(prop, tier, seed, replay=None):
         base = int(os.path.basename(out).split("-")[1])
         pf = os.path.join(pdir, "%05d.json" % (v["scn"] - base))
         plan = json.load(open(pf)) if os.path.exists(pf) else None
-        path = vlib.save_replay(prop, len(seen) - 1, {"property": prop, "violation": {k: v[k] for k in v if k != "trace"}, "plan": plan})
+        observed = [json.loads(l) for l in open(v["trace"]) if '"scn":%d,' % v["scn"] in l and '"ev":"probe"' not in l
+                    and '"ev":"y_' not in l and '"ev":"e_' not in l and '"ev":"tg_' not in l][:400]
+        path = vlib.save_replay(prop, len(seen) - 1, {"property": prop, "violation": {k: v[k] for k in v if k != "trace"}, "plan": plan,
+                                                      "observed_trace": observed})
         print("VIOLATION property=%s replay=%s" % (prop, path))
         print("  %s subject=%s scenario=%s: %s" % (v["inv"], v["subj"], v["scn"], v["detail"]))
         rc = 1
@@ -449,6 +477,8 @@ def main():
         vlib.write_evidence = lambda *x, **k: None
     seed = int(os.environ.get("VERIF_SEED", "1"))
     t0 = time.time()
+    if not a.replay:
+        shutil.rmtree(os.path.join(vlib.VERIF, "out", a.prop), ignore_errors=True)
     try:
         rc = None
         kind = None
